@@ -94,6 +94,35 @@ theorem downpass_exact (k : Nat) (tv : String → Vec) (t : T)
     simp only [at_vzero] at h1
     exact (hA s hs).mpr (fun t' ht' => by have := hge t' ht'; omega)
 
+/-- The ORACLE's per-node optimal sets are what they are meant to be.  The second Sankoff pass `totA`
+    (Spec; the driver reports a state `s` at an inner node `v` as optimal iff the slice entry equals `minCost`)
+    characterises the most parsimonious labellings: the entry of `s` at `v` equals the minimum iff some most
+    parsimonious labelling of the whole tree puts `s` at `v`. -/
+theorem totA_exact (k : Nat) (tv : String → Vec) (t : T)
+    (hk : 0 < k) (hr : rootOk t = true) (ht : tipsOk k tv t = true)
+    (v : List Nat) (hin : innerAt t v = true) (tot : Vec)
+    (hget : (totA k tv (vzero k) t).get v = some tot) (s : Nat) (hs : s < k) :
+    tot.at s = minCost k tv t ↔
+      ∃ l : LT, fits k tv t l = true ∧ l.changes = minCost k tv t ∧ l.get v = some s := by
+  have hne : t.kids ≠ [] := by
+    intro h; simp [rootOk, h] at hr
+  have hsp := tipsOk_spec k tv t ht
+  have hlne : ∀ n ∈ t.leaves, leafNonempty k tv n := by
+    match t, hne with
+    | .node d p (x :: xs), _ => intro n hn; rw [leaves_node_cons] at hn; exact (hsp n hn).2
+  constructor
+  · intro he
+    obtain ⟨l, hf, hg, hc⟩ := tot_att k tv hk t hlne (vzero k) v tot s hs hget hin
+    simp only [at_vzero] at hc
+    exact ⟨l, hf, by omega, hg⟩
+  · intro ⟨l, hf, hc, hg⟩
+    have h1 := tot_lb k tv t (vzero k) v tot l s hf hg hget hin
+    simp only [at_vzero] at h1
+    obtain ⟨l', hf', _, hc'⟩ := tot_att k tv hk t hlne (vzero k) v tot s hs hget hin
+    have h2 := minCost_le k tv t hne l' hf'
+    simp only [at_vzero] at hc'
+    omega
+
 /-- DELTRAN is sound node by node: every state it reports at an inner node occurs there in some
     most parsimonious labelling (it only removes states from the down-pass sets). -/
 theorem deltran_sound (k : Nat) (tv : String → Vec) (t : T)
@@ -169,12 +198,16 @@ theorem acctran_sound (k : Nat) (tv : String → Vec) (t : T)
       have hopt : tot.at s = minCost k tv (.node dt pt (x :: xs)) := by
         match v, hin, hget, htv with
         | [], _, hget, htv =>
-          simp only [runAlgo, upA, acctran, A.get, Option.some.injEq] at hget
+          simp only [runAlgo] at hget
+          rw [acctran_upA_cons] at hget
+          simp only [A.get, Option.some.injEq] at hget
           simp only [totA, A.get, Option.some.injEq] at htv
           subst hget; subst htv
           exact hroot.hopt s hs hne
         | i :: q, hin, hget, htv =>
-          simp only [runAlgo, upA, acctran, A.get] at hget
+          simp only [runAlgo] at hget
+          rw [acctran_upA_cons] at hget
+          simp only [A.get] at hget
           simp only [totA, A.get] at htv
           exact acc_list k tv hk _ (x :: xs) (fun et _ => acc_tree k tv hk _ et.2) hl01
             (vzero k) (vzero k) _ _ hroot
@@ -202,7 +235,9 @@ theorem unambiguous_optimal_acctran (k : Nat) (tv : String → Vec) (t : T)
     obtain ⟨_, hiff⟩ := node_min k tv hk (x :: xs)
       (fun et het i hi => upS_le_one k tv et.2 (hl' et het) i hi)
       (fun et het s hs => key k tv hk et.2 (hl' et het) s hs)
-    simp only [runAlgo, upA, acctran, A.flat, allSingle, List.all_cons, Bool.and_eq_true, beq_iff_eq] at hall
+    simp only [runAlgo] at hall ⊢
+    rw [acctran_upA_cons] at hall ⊢
+    simp only [A.flat, allSingle, List.all_cons, Bool.and_eq_true, beq_iff_eq] at hall
     obtain ⟨hS1, hrest⟩ := hall
     have hS := isSingle_of k _ hS1
     have hS01 : Set01 k (upS k tv (.node dt pt (x :: xs))) :=
@@ -216,7 +251,7 @@ theorem unambiguous_optimal_acctran (k : Nat) (tv : String → Vec) (t : T)
       simp only [upS, cp, at_tab, hx0, if_true] at hne
       split at hne <;> simp_all
     have hmin := hmin0 _ hS.1 ((hS.2 _ hS.1).mpr rfl)
-    simp only [runAlgo, upA, acctran, A.flat, List.map_cons, labelOf, List.headD_cons, List.drop_succ_cons,
+    simp only [A.flat, List.map_cons, labelOf, List.headD_cons, List.drop_succ_cons,
       List.drop_zero, LT.changes, minCost, T.kids_node]
     exact ⟨by simp [fits, hS.1, hlist.2.1], by rw [hlist.2.2, hmin]⟩
 
@@ -232,6 +267,51 @@ theorem tips_unaltered (k : Nat) (tv : String → Vec) (t : T) (algo : Algo)
   | inr h =>
     subst h
     exact A.get_of_sub _ v _ (deltran_leaf k (down k tv none t) none v (tv d.name) h1)
+
+/-- Tip states are never altered, by any of the algorithms and for any tip set (IUPAC ambiguity included):
+    since fix a20daad ACCTRAN, too, leaves the slice of a leaf as it was given. -/
+theorem tips_unaltered_all (k : Nat) (tv : String → Vec) (t : T) (algo : Algo)
+    (v : List Nat) (d : NodeD) (pp : Nat) (hleaf : sub t v = some (.node d pp [])) :
+    (runAlgo k tv algo t).get v = some (tv d.name) := by
+  cases algo with
+  | downpass => exact tips_unaltered k tv t .downpass (Or.inl rfl) v d pp hleaf
+  | deltran => exact tips_unaltered k tv t .deltran (Or.inr rfl) v d pp hleaf
+  | acctran => exact A.get_of_sub _ v _ (acctran_leaf_sub k tv t none v d pp hleaf)
+  | none =>
+    -- the up-pass slice of a leaf is its tip slice: ACCTRAN's sub-lemma with the identity
+    have : ∀ (c : T) (p : List Nat), sub c p = some (.node d pp []) → (upA k tv c).get p = some (tv d.name) := by
+      intro c
+      induction c using T.induct with
+      | h d0 p0 ks ih =>
+        intro p h
+        match ks, ih, p, h with
+        | [], _, [], h =>
+          simp only [sub, Option.some.injEq, T.node.injEq] at h
+          obtain ⟨h1, _, _⟩ := h; subst h1; simp [upA, upAL, upS, A.get]
+        | [], _, i :: q, h => simp [sub, subL] at h
+        | x :: xs, _, [], h => simp [sub] at h
+        | x :: xs, ih, i :: q, h =>
+          simp only [sub] at h
+          simp only [upA, A.get]
+          have hlist : ∀ (ks : Kids), (∀ et ∈ ks, ∀ (p : List Nat), sub et.2 p = some (.node d pp []) →
+              (upA k tv et.2).get p = some (tv d.name)) → ∀ i, subL ks i q = some (.node d pp []) →
+              A.getL (upAL k tv ks) i q = some (tv d.name) := by
+            intro ks
+            induction ks with
+            | nil => intro _ i h; simp [subL] at h
+            | cons z zs ihz =>
+              intro hz i h
+              match z, i, h with
+              | (e, c), 0, h =>
+                simp only [subL] at h
+                simp only [upAL, A.getL]
+                exact hz (e, c) (List.mem_cons_self ..) q h
+              | (e, c), i + 1, h =>
+                simp only [subL] at h
+                simp only [upAL, A.getL]
+                exact ihz (fun et het => hz et (List.mem_cons_of_mem _ het)) i h
+          exact hlist (x :: xs) ih i h
+    exact this t v hleaf
 
 /-- one re-rooting step (the root moves to an inner child): same number of steps, and the
     hypotheses carry over to the re-rooted tree -/
@@ -972,6 +1052,24 @@ theorem tips_unaltered_none (k : Nat) (tv : String → Vec) (d : NodeD) (pp : Na
     upA k tv (.node d pp []) = .node (tv d.name) [] := by
   simp [upA, upAL, upS]
 
+/-- the column `R A A` (R = A or G) on the star tree -/
+def colRAA : String → Vec
+  | "t0" => [1, 0, 1, 0, 0, 0]
+  | _ => [1, 0, 0, 0, 0, 0]
+
+/-- Repaired finding AcctranAmbiguousTipNarrowed (fix a20daad in asr/parsimony.go), as a theorem about the
+    PINNED variant `acctranPinned` (tip children intersected with their parent): on the star tree with the column
+    `R A A` the ambiguous tip `R` = {A,G} was written as `A`; the model of the code as it is now keeps `{A,G}`,
+    like the plain down-pass and DELTRAN. -/
+theorem acctran_pinned_fails :
+    (acctranPinned 6 none (upA 6 colRAA starTree)).get [0] = some [1, 0, 0, 0, 0, 0] ∧
+    colRAA "t0" = [1, 0, 1, 0, 0, 0] ∧
+    (runAlgo 6 colRAA .acctran starTree).get [0] = some (colRAA "t0") ∧
+    (runAlgo 6 colRAA .downpass starTree).get [0] = some (colRAA "t0") ∧
+    (runAlgo 6 colRAA .deltran starTree).get [0] = some (colRAA "t0") ∧
+    tipsOk 6 colRAA starTree = true := by
+  decide
+
 /- the hypotheses are satisfiable on a non-trivial tree: ((a,b,c),d,(e,f)) with a polytomy,
    three states, an ambiguous tip -/
 def exTree : T :=
@@ -992,14 +1090,14 @@ example : (sub exTree [0, 1]).map (fun c => (c.name, c.kids.length)) = some ("b"
 example : okPath exTree [0] = true ∧ (runChar 3 exTv .acctran (rerootPath exTree [0])).1 = 3 := by
   decide
 
-example : allSingle 3 (runAlgo 3 exTv .acctran exTree).flat = true := by decide
-
 def exTv2 : String → Vec
   | "d" => [0, 1, 0] | n => exTv n
 
 example : tipsOk 3 exTv2 exTree = true ∧ allSingle 3 (runAlgo 3 exTv2 .downpass exTree).flat = true := by decide
 
 example : allSingle 3 (runAlgo 3 exTv2 .deltran exTree).flat = true := by decide
+
+example : allSingle 3 (runAlgo 3 exTv2 .acctran exTree).flat = true := by decide
 
 /- one alignment column A/G coded as ACR does (alphabet [A, G]) and as ASR does (A C G T - *) -/
 def exCol1 : String → Vec
@@ -1027,6 +1125,12 @@ def exAln : List (String × String) :=
   [("a", "AG"), ("b", "RG"), ("c", "CG"), ("d", "CA"), ("e", "C-"), ("f", "NA")]
 
 example : iupacCol exAln 0 = true := by decide
+
+/- the wrappers accept the example (hypotheses `asr … = some _`, `acr … = some _` of `asr_acr_steps`,
+   `asr_acr_sets`, `acr_optimal`, `asr_optimal_partial` are satisfiable) -/
+example : (asr exTree exAln 2 .deltran).isSome = true ∧ (acr exTree (colMap exAln 1) .deltran).isSome = true ∧
+    ((asr exTree exAln 2 .deltran).map fun o => o.steps) = some [2, 2, 0] ∧
+    ((acr exTree (colMap exAln 1) .deltran).map fun o => o.steps) = some 2 := by decide
 
 example : aaCol [("a", "MX"), ("b", "L-"), ("c", "L*")] 1 = true ∧ aaCodes 'X' = List.range 20 ∧ aaCodes 'V' = [19] := by
   decide
